@@ -13,8 +13,8 @@ open Atomman Atomman.C10
     sys   <via> unit(box) <12 rationals> <3 pbc> <nsym> {sym|-}* <nmass> {mass|-}* <natoms> <nprops> {<name> unit arr}* [sel <k> {<name> unit}*]
     ec    <via> unit <crystal system> <mu|-> <K|-> <36 C>     (mu, K: Hill estimates, `-` when they raise)
     nest  <rank> <dims…> <data…>
-    obj   <12 rationals> <natoms> <pos…> {warm | c2r p | r2c p | setv m | seto o | bread <via> unit <12 rationals>
-          | sysdump <via> unit}*      (one System object holding one Box object; reply: one value per operation)
+    obj   <12 rationals> <natoms> <pos…> {warm | c2r p | r2c p | setv m | seto o | setp <i> <v> | bread <via> unit <12 rationals>
+          | bdump <via> unit | sysdump <via> unit}*   (one System object holding one Box object; reply: one value per operation)
   via = tree | json | xml (xml applies the one-element-list collapse before reading back).
 -/
 
@@ -233,6 +233,25 @@ partial def objOps (s : SysObj Rat) (acc : List String) : List String → Option
     | some (o, r1) =>
       let b' := s.bobj.setOrigin o
       objOps { s with bobj := b' } (("{\"box\":" ++ jBox b'.box ++ "}") :: acc) r1
+  | "setp" :: ix :: r =>
+    -- in-place edit of one coordinate of the positions (through the array the object hands out)
+    match ix.toNat?, pRat r with
+    | some i, some (v, r1) =>
+      let s' := s.setPosAt i v
+      objOps s' (("{\"pos\":" ++ jList (s'.positions.map jFlt) ++ "}") :: acc) r1
+    | _, _ => none
+  | "bdump" :: via :: r =>
+    -- Box.model(length_unit=u) of the held Box object, read into a fresh Box
+    match pUnit r with
+    | none => none
+    | some (u, r1) =>
+      let (fw, fr) := facOf u
+      match (boxModel fw u.unit s.bobj.box).bind (viaOf via) with
+      | none => objOps s ("null" :: acc) r1
+      | some t =>
+        match boxRead fr eps t with
+        | none => objOps s ("null" :: acc) r1
+        | some b => objOps s (("{\"box\":" ++ jBox b ++ "}") :: acc) r1
   | "bread" :: via :: r =>
     match pUnit r with
     | none => none
